@@ -480,14 +480,150 @@ fn forced_case(case: u64, rng: &mut Rng, rep: &mut Report) {
     }
 }
 
+/// The end of a merge started by a writer that was rolled back in the meantime is processed by
+/// the old (killed) segment updater AFTER the replacement writer has committed: nothing the old
+/// updater still does may replace the newer commit - successive reloads never move back.
+fn stale_updater_case(case: u64, rng: &mut Rng, rep: &mut Report) {
+    let cfg = ExecCfg { threads: 1, merge_policy: false, sort: None, budget_per_thread: 15_000_000 };
+    let mon = MonDir::new(MonCfg { monitors: true, ..Default::default() });
+    let mut ex = match Exec::create(Box::new(mon.clone()), cfg, Some(mon.clone())) {
+        Ok(e) => e,
+        Err(e) => {
+            rep.violation("api-error:create", json!(e));
+            return;
+        }
+    };
+    rep.eval();
+    let mut g = HistGen::new();
+    let nseg = rng.urange(2, 4);
+    for _ in 0..nseg {
+        for _ in 0..rng.urange(2, 6) {
+            ex.step(&Op::Add(g.doc(rng, 2)));
+        }
+        ex.step(&Op::Add(marker(&mut g)));
+        ex.step(&Op::Commit);
+    }
+    let second_index = rng.bool();
+    let idx = if second_index {
+        match Index::open(mon.clone()) {
+            Ok(i) => i,
+            Err(e) => {
+                rep.violation("stale-updater:open-failed", json!(e.to_string()));
+                return;
+            }
+        }
+    } else {
+        ex.index.clone()
+    };
+    let reader: IndexReader = match idx.reader_builder().reload_policy(ReloadPolicy::Manual).try_into() {
+        Ok(r) => r,
+        Err(e) => {
+            rep.violation("stale-updater:reader-failed", json!(e.to_string()));
+            return;
+        }
+    };
+    let ids = ex.index.searchable_segment_ids().unwrap_or_default();
+    if ids.len() < 2 {
+        return;
+    }
+    let gate1 = mon.add_gate(OpPred::kind(OpKind::OpenWrite).role("merge"), rng.below(4));
+    let fut = ex.writer.as_mut().unwrap().merge(&ids);
+    if !mon.wait_parked(gate1, Duration::from_secs(5)) {
+        mon.release_all_gates();
+        let _ = fut.wait();
+        rep.count("stale_updater:merge_gate_not_reached", 1);
+        return;
+    }
+    // deletes committed while the merge runs: end_merge will have a .del file to write for the
+    // merged segment, which is where the old updater is parked
+    ex.step(&Op::DeleteTerm(Pred::Grp(0)));
+    if rng.bool() {
+        ex.step(&Op::DeleteTerm(Pred::Grp(1)));
+    }
+    ex.step(&Op::Add(marker(&mut g)));
+    ex.step(&Op::Commit);
+    let gate2 = mon.add_gate(OpPred::kind(OpKind::OpenWrite).role("updater").fkind("del"), 0);
+    mon.release_gate(gate1);
+    let parked2 = mon.wait_parked(gate2, Duration::from_secs(5));
+    rep.count(if parked2 { "stale_updater:old_updater_parked_in_end_merge" } else { "stale_updater:end_merge_wrote_no_del" }, 1);
+    // the writer is replaced and the replacement commits
+    for _ in 0..rng.urange(0, 2) {
+        ex.step(&Op::Add(g.doc(rng, 2)));
+    }
+    ex.step(&Op::Rollback);
+    for _ in 0..rng.urange(0, 3) {
+        ex.step(&Op::Add(g.doc(rng, 2)));
+    }
+    ex.step(&Op::Add(marker(&mut g)));
+    ex.step(&Op::Commit);
+    let commits = ex.model.commits.clone();
+    let last = commits.len() - 1;
+    let observe = |when: &str, rep: &mut Report| -> bool {
+        if let Err(e) = reader.reload() {
+            rep.violation(format!("stale-updater:reload-failed:{when}"), json!({"case": case, "err": e.to_string()}));
+            return false;
+        }
+        match live_ids(&reader.searcher()) {
+            Err(e) => {
+                rep.violation(format!("stale-updater:search-failed:{when}"), json!({"case": case, "err": e}));
+                false
+            }
+            Ok(ids) => {
+                let m = match_commits(&commits, &ids);
+                if m.is_empty() {
+                    rep.violation(
+                        format!("stale-updater:observed-state-matches-no-commit:{when}"),
+                        json!({"case": case, "ids": ids.iter().take(20).collect::<Vec<_>>()}),
+                    );
+                    false
+                } else if *m.last().unwrap() != last {
+                    rep.violation(
+                        format!("stale-updater:reload-moved-back-to-an-older-commit:{when}"),
+                        json!({"case": case, "observed_commit": m, "last_commit": last, "second_index": second_index}),
+                    );
+                    false
+                } else {
+                    true
+                }
+            }
+        }
+    };
+    let ok1 = observe("after-the-new-commit", rep);
+    mon.release_gate(gate2);
+    mon.release_all_gates();
+    let outcome = match fut.wait() {
+        Ok(_) => "published",
+        Err(_) => "discarded",
+    };
+    rep.count(&format!("stale_updater:old_merge_{outcome}"), 1);
+    let ok2 = ok1 && observe("after-the-old-updater-finished", rep);
+    if ok2 {
+        for (sig, d) in ex.check_committed(true) {
+            rep.violation(format!("stale-updater:{sig}"), json!({"case": case, "detail": d}));
+        }
+    }
+    for (sig, d) in ex.problems.drain(..) {
+        if !is_known("C02", &sig) {
+            rep.violation(format!("stale-updater:live:{sig}"), json!({"case": case, "detail": d}));
+        }
+    }
+    for v in mon.take_violations() {
+        rep.violation(format!("stale-updater:{}", v.sig), json!({"case": case, "detail": v.detail}));
+    }
+    if parked2 {
+        rep.nontrivial(format!("stale-updater:nseg={nseg}:{}:{outcome}", if second_index { "second-index" } else { "same-index" }));
+    }
+}
+
 fn main() {
     let ctx = Ctx::from_env("C05", "exploration");
     let mut rep = run_cases(&ctx, "stress", ctx.scale(80, 3000) as u64, stress_case);
     rep.merge(run_cases(&ctx, "forced", ctx.scale(80, 4000) as u64, forced_case));
+    rep.merge(run_cases(&ctx, "stale-updater", ctx.scale(40, 2000) as u64, stale_updater_case));
     simple_finish(
         &ctx,
         rep,
-        "case = (a) one stress run: a writer producing 5-25 commits (each adding a marker document so every commit is a distinct id set) with deletes, merges, GC, rollbacks and final shutdown, while 1-3 reader threads (same Index, second Index on the same directory, OnCommitWithDelay) reload and observe, and hold searchers that are re-fingerprinted during the run and after the writer is gone; every observation must equal one committed model state, not older than the commits completed before the reload started, not newer than those started, monotone per reader; on MonDir, RamDirectory and MmapDirectory. (b) one forced schedule: a loading reader parked between reading meta.json and opening its k-th segment file while the writer commits, merges and GCs. Non-trivial = observations overlapped a commit and >=2 distinct commits were seen / the reader was actually parked.",
+        "case = (a) one stress run: a writer producing 5-25 commits (each adding a marker document so every commit is a distinct id set) with deletes, merges, GC, rollbacks and final shutdown, while 1-3 reader threads (same Index, second Index on the same directory, OnCommitWithDelay) reload and observe, and hold searchers that are re-fingerprinted during the run and after the writer is gone; every observation must equal one committed model state, not older than the commits completed before the reload started, not newer than those started, monotone per reader; on MonDir, RamDirectory and MmapDirectory. (b) one forced schedule: a loading reader parked between reading meta.json and opening its k-th segment file while the writer commits, merges and GCs. (c) one forced schedule: the segment updater of a rolled-back writer parked inside end_merge until the replacement writer has committed; reloads before and after it resumes must show the newest commit. Non-trivial = observations overlapped a commit and >=2 distinct commits were seen / the reader was actually parked.",
         ctx.scale(30, 60),
         &["commit identification relies on unique document ids and a marker document per commit", "every reader flavour, including auto-reload mixed with manual reloads, must be monotone (DESIGN.md §7 C05, revised scope)"],
     );
